@@ -374,6 +374,9 @@ func (e *Env) exec(o Op) Res {
 		return res(v.Lchown(o.P, int(o.N), int(o.M)), "")
 	case "Chtimes":
 		t := SentinelTime(o.N)
+		if o.N == -1 {
+			t = time.Time{} // the zero time: "leave unchanged" for package os
+		}
 		return res(v.Chtimes(o.P, t, t), "")
 	case "Chdir":
 		return res(v.Chdir(o.P), "")
